@@ -18,17 +18,23 @@ _booted = False
 
 
 def scratch():
-  """A private scratch directory for this process tree (removed at exit by its creator)."""
+  """A private scratch directory for this process.  All scratch directories of one run live under one
+  root (VERIF_SCRATCH_ROOT, created by the first process of the run and inherited by forked/spawned workers),
+  and that first process removes the root at exit - pool workers are terminated without running atexit."""
   global _scratch
   if _scratch is None:
-    base = '/dev/shm' if os.path.isdir('/dev/shm') and os.access('/dev/shm', os.W_OK) else None
-    _scratch = tempfile.mkdtemp(prefix='carbon-verif-', dir=base)
-    owner = os.getpid()
+    root = os.environ.get('VERIF_SCRATCH_ROOT')
+    if not root or not os.path.isdir(root):
+      base = '/dev/shm' if os.path.isdir('/dev/shm') and os.access('/dev/shm', os.W_OK) else None
+      root = tempfile.mkdtemp(prefix='carbon-verif-run-', dir=base)
+      os.environ['VERIF_SCRATCH_ROOT'] = root
+      owner = os.getpid()
 
-    def _cleanup(path=_scratch, owner=owner):
-      if os.getpid() == owner:
-        shutil.rmtree(path, ignore_errors=True)
-    atexit.register(_cleanup)
+      def _cleanup(path=root, owner=owner):
+        if os.getpid() == owner:
+          shutil.rmtree(path, ignore_errors=True)
+      atexit.register(_cleanup)
+    _scratch = tempfile.mkdtemp(prefix='p%d-' % os.getpid(), dir=root)
   return _scratch
 
 
@@ -129,15 +135,12 @@ def _conf_limit_factors():
   return (float(low.group(1)), float(hard.group(1)), float(nf.lstrip('* ')) if nf else 1.0)
 
 
-def apply_daemon_cache_limits(settings):
-  """Configure the derived cache limits the way carbon.conf would (factors read from its source)."""
-  f = conf_limit_factors()
-  if f is None:
-    derive_cache_limits(settings)
-    return
-  low, hard_fc, hard_nofc = f
-  settings['CACHE_SIZE_LOW_WATERMARK'] = settings['MAX_CACHE_SIZE'] * low
-  settings['CACHE_SIZE_HARD_MAX'] = settings['MAX_CACHE_SIZE'] * (hard_fc if settings['USE_FLOW_CONTROL'] else hard_nofc)
+def apply_daemon_cache_limits(settings, variant='base'):
+  """Configure MAX_CACHE_SIZE / USE_FLOW_CONTROL (already set to the wanted values) and the limits derived from
+  them exactly as the daemon's real start-up (CarbonCacheOptions.postOptions on a generated carbon.conf,
+  mc/daemonconf.py) leaves them; a key the start-up does not define is removed, so carbon fails as it would."""
+  from . import daemonconf
+  return daemonconf.apply_cache_limits(settings, variant)
 
 
 class LogCapture(object):
